@@ -4,6 +4,7 @@ CONSTANT Requests <- MC_ReqAll
 SPECIFICATION Spec
 INVARIANT TypeOK
 INVARIANT ResultIsRequested
+INVARIANT NeverGarbage
 INVARIANT RejectIffNotCovered
 INVARIANT BoundedKdf
 INVARIANT CoverIsDerivable
